@@ -26,8 +26,9 @@ def seqkindOf (s : String) : Option (String × Option Nat) :=
 
 /-- What `__init__` raises, if anything: MUSCLE asks the binary for its version first (launch errors); exotic sequence
 types need a wrapper with custom protein matrices (MUSCLE 3, MAFFT) and an alphabet no larger than the amino-acid one. -/
-def constructErr (w : Wrapper) (t : Tool) (custom : Option Nat) : Option Err :=
+def constructErr (w : Wrapper) (t : Tool) (n : Nat) (custom : Option Nat) : Option Err :=
   if (w = .muscle3 ∨ w = .muscle5) ∧ launchFails t then some (errLaunch t)
+  else if w.isMsa ∧ n < 2 then some .valueError        -- "At least two sequences are required" comes first in MSAApp.__init__
   else match custom with
     | none => none
     | some k =>
@@ -94,7 +95,7 @@ def step (st : DSt) (line : String) : DSt × String :=
   | ["new", w, t, n, k] =>
     match wrapperOf w, toolOf t, n.toNat?, seqkindOf k with
     | some w, some t, some n, some (seqtype, custom) =>
-      match constructErr w t custom with
+      match constructErr w t n custom with
       | some e => (.failed, "ERR:" ++ e.toString ++ " | " ++ noObs)
       | none =>
         let s := init w t n seqtype
